@@ -34,6 +34,36 @@ def raw_listing(w, reg):
     return {"regs": regs, "subs": subs}
 
 
+def canon_dict(w, d, level, provided_level, subs):
+    """Nested dictionaries in dict order: {"n": [[key, subtree], ...]}; anything that is not a dict is a
+    payload: {"v": [vid, veq]} (adapters) or {"l": [[vid, veq], ...]} (subscribers).  Keys: spec ids
+    above the provided level, there spec id (adapters) / 0 for None, id + 1 otherwise (subscribers),
+    below it the name id.  Deliberately private layout: this is a refinement check."""
+    if not isinstance(d, dict):
+        if isinstance(d, tuple):
+            return {"l": [[x.vid, x.veq] for x in d]}
+        return {"v": [d.vid, d.veq]}
+    out = []
+    for k, sub in d.items():
+        if level < provided_level:
+            kk = w.spec_id(k)
+        elif level == provided_level:
+            kk = (0 if k is None else w.spec_id(k) + 1) if subs else w.spec_id(k)
+        else:
+            kk = w.name_id(k)
+        out.append([kk, canon_dict(w, sub, level + 1, provided_level, subs)])
+    return {"n": out}
+
+
+def layout(w, reg):
+    return {"ad": [canon_dict(w, c, 0, i, False) for i, c in enumerate(reg._adapters)],
+            "su": [canon_dict(w, c, 0, i, True) for i, c in enumerate(reg._subscribers)],
+            "pc": sorted([w.spec_id(k), n] for k, n in reg._provided.items())}
+
+
+MUTATORS = ("register", "unregister", "subscribe", "unsubscribe", "rebuild")
+
+
 def retarget(op, r2):
     op = list(op)
     op[1] = r2
@@ -42,11 +72,13 @@ def retarget(op, r2):
 
 def run_case(case):
     w = R.World(case)
-    answers, orders = [], []
+    answers, orders, layouts = [], [], []
     for op in case["ops"]:
         if op[0] == "rebuild":
             orders.append(raw_listing(w, w.regs[op[1]]))
         answers.extend(R.run_ops(w, [op]))
+        if op[0] in MUTATORS:
+            layouts.append(layout(w, w.regs[op[1]]))
     rp = case["replay"]
     r0 = w.regs[rp["reg"]]
     a1 = R.run_ops(w, rp["queries"])
@@ -59,9 +91,9 @@ def run_case(case):
     w.regs.append(second)
     r2 = len(w.regs) - 1
     a2 = R.run_ops(w, [retarget(q, r2) for q in rp["queries"]])
-    return {"specs": w.observed_specs(), "answers": answers, "orders": orders,
+    return {"specs": w.observed_specs(), "answers": answers, "orders": orders, "layouts": layouts,
             "replay": {"flavour": "push" if type(r0) is R.AdapterRegistry else "verifying",
-                       "listing": listing, "a1": a1, "a2": a2}}
+                       "listing": listing, "a1": a1, "a2": a2, "layout": layout(w, second)}}
 
 
 payload = _boot.read_payload()
